@@ -508,3 +508,49 @@ def modified_true_edge(b, w, rs):
                 cur = t["t"]; continue
             break
     return None
+
+
+KC = "storage::engine::ShardWatchTracker.key_counters"
+GC = "storage::engine::ShardWatchTracker.global_counter"
+
+
+def rule_w4(ctx, R):
+    """modification stamps are never forgotten or reused: the per-key stamp map is shared by all
+    connections watching the key (each compares it with the baseline it saved at WATCH time), so
+    (a) nothing removes or clears entries of key_counters, (b) every stamp written is a fresh
+    value of the global counter, (c) the global counter only moves forward (fetch_add)."""
+    n = 0
+    for fn, b in sorted(ctx.prog.bodies.items()):
+        if not fn.startswith("storage::engine::") or "::tests::" in fn:
+            continue
+        for i, t in b.calls():
+            f = t["f"] or ""
+            if b.bbs[i].get("cleanup") or not t["a"] or op_is_const(t["a"][0]):
+                continue
+            m = re.match(r"^std::collections::HashMap::<std::vec::Vec<u8>, u64>::(\w+)", f)
+            if m:
+                P = prov.operand_origins(b, t["a"][0])
+                if KC not in P.fields:
+                    continue
+                n += 1
+                op = m.group(1)
+                if op in ("remove", "remove_entry", "clear", "retain", "drain", "extract_if"):
+                    R.inst(fn, "stamp-map-op:" + op, {"function": fn, "op": op})
+                    R.finding(fn, "stamp-map:%s" % op,
+                              "%s drops modification stamps (HashMap::%s on key_counters, line %d): the map is shared by every connection watching the key, so a modification another watcher has not yet checked is forgotten (its EXEC runs although the key changed)" % (fn.split("::")[-1], op, b.bb_line(i)), b.loc(i))
+                elif op == "insert":
+                    fresh = False
+                    if len(t["a"]) > 2 and not op_is_const(t["a"][2]):
+                        PV = prov.operand_origins(b, t["a"][2], deep=True)
+                        fresh = PV.has_call(r"atomic::Atomic::<u64>::fetch_add$") 
+                    R.inst(fn, "stamp-map-op:insert", {"function": fn, "stamp_from_global_counter": fresh})
+                    if not fresh:
+                        R.finding(fn, "stamp-map:insert-not-fresh", "%s writes a stamp that is not a fresh value of the global counter (line %d): a stamp equal to a saved baseline hides the modification" % (fn.split("::")[-1], b.bb_line(i)), b.loc(i))
+                else:
+                    R.inst(fn, "stamp-map-op:" + op, None)
+            elif re.search(r"atomic::Atomic::<u64>::(store|swap|fetch_sub|fetch_min|compare_exchange|compare_exchange_weak|fetch_and|fetch_update)$", f):
+                P = prov.operand_origins(b, t["a"][0])
+                if GC in P.fields:
+                    n += 1
+                    R.finding(fn, "global-counter:not-monotone", "%s rewinds or overwrites the global stamp counter (line %d)" % (fn.split("::")[-1], b.bb_line(i)), b.loc(i))
+    R.floor("stamp_map_operations", n)
